@@ -175,7 +175,7 @@ def run(prop, tier, replay=None):
                    traces_validated_against_impl=stat["events"] + other["router_sets"] + other["rpcs"],
                    evaluations=stat["events"] + other["router_lookups"] + other["rpcs"],
                    distinct_nontrivial=stat["entry"] + stat["upgraded"],
-                   rule=("abstract requests: all %d combinations of (HTTP version, 15 content-type classes, method, Grpc-Encoding class, grpc-timeout "
+                   rule=("abstract requests: all %d combinations of (HTTP version, 17 content-type classes, method, Grpc-Encoding class, grpc-timeout "
                          "class, 5 path classes, Upgrade) enumerated by TLC, each concretised with seeded spellings under a seeded option subset; "
                          "generated neighbourhood: path prefixes/extensions x verbs x upgrade, hostile paths x verbs, query keys through "
                          "repeated/map/scalar/unknown fields, content types / Accept / encodings x bodies (truncated, huge, bad varints, gzip junk), "
